@@ -187,3 +187,22 @@ Definition src2_validators (allowed_c14n : pyval) (allowed_transforms : pyval) (
    | BExc n_5 => (PExc n_5)
    | BErr => PErr
    end))))))))))))))))))))))))))))))))).
+
+(* /verif/work/C02/slices/response_parse_assertion_count.py:parse_assertion__count, lines 2-11 *)
+Definition src2_count (v_self : pyval) : pyval :=
+  let v_n_assertions := PErr in
+  let v_n_assertions_enc := PErr in
+  (match p2_branch (p2_eq (p2_attr_x v_self "context") (PStr "AuthnQuery")) with
+   | BTrue => PNone
+   | BFalse => (py_bind (p2_len (p2_attr_x (p2_attr_x v_self "response") "assertion")) (fun v_n_assertions =>
+   (py_bind (p2_len (p2_attr_x (p2_attr_x v_self "response") "encrypted_assertion")) (fun v_n_assertions_enc =>
+   (match p2_branch (p2_and (p2_ne v_n_assertions (PInt (1)%Z)) (p2_and (p2_ne v_n_assertions_enc (PInt (1)%Z)) (p2_is_none (p2_attr_x v_self "assertion")))) with
+   | BTrue => (py_bind (p2_fconcat [PStr "Invalid number of assertions in Response: "; p2_str (p2_add v_n_assertions v_n_assertions_enc)]) (fun _ =>
+   (PExc "InvalidAssertion")))
+   | BFalse => PNone
+   | BExc n_1 => (PExc n_1)
+   | BErr => PErr
+   end)))))
+   | BExc n_2 => (PExc n_2)
+   | BErr => PErr
+   end).
